@@ -12,7 +12,19 @@ import (
 var (
 	repoDir  = "/repo"
 	verifDir = "/verif"
+	// outDir: where evidence and replay files go. The registered checks always use /repo and /verif; the two
+	// environment overrides exist only for the tooling that runs seeded changes and mutants on scratch copies in parallel.
+	outDir = "/verif"
 )
+
+func init() {
+	if d := os.Getenv("GOVC_REPO"); d != "" {
+		repoDir = d
+	}
+	if d := os.Getenv("GOVC_OUT"); d != "" {
+		outDir = d
+	}
+}
 
 func specFiles() []string {
 	fs, _ := filepath.Glob(filepath.Join(verifDir, "contracts", "*.spec"))
